@@ -381,9 +381,17 @@ def evaluate(case):
             bad = ["[ a /* never closed", "a $ b", text[:max(0, len(text) // 2)] + " /*", "{ a : ", "( ( ("][inst["poison"] % 5]
             parse_guarded(L, parser, bad, len(toks) + 8, budget=60000)      # outcome irrelevant, but must not hang
             classes.add("rejected_text_parsed_before")
-        kind, res, _st = parse_guarded(L, parser, text, len(toks))
+        # the text as a str or as any iterable of lines (list, tuple, one-shot iterator, generator, file-like object)
+        form = inst.get("form") or "str"
+        lines = text.split("\n")
+        src = {"str": lambda: text, "list": lambda: lines, "tuple": lambda: tuple(lines), "iter": lambda: iter(lines),
+               "gen": lambda: (ln for ln in lines), "file": lambda: __import__("io").StringIO(text),
+               "dictkeys": lambda: dict.fromkeys(_uniq(lines)).keys()}[form]()
+        if form != "str":
+            classes.add("text_given_as_" + form)
+        kind, res, _st = parse_guarded(L, parser, src, len(toks))
         evals += 1
-        ctx = f"schema={fields!r} text={text!r}"
+        ctx = f"schema={fields!r} text={text!r}" + ("" if form == "str" else f" (passed as {form} of lines)")
         if inst.get("expect_error"):
             classes.add("final_delimiter_where_not_allowed")
             if kind == "tree":
@@ -657,6 +665,17 @@ def st_data(draw, T, flags, allow_absent):
     raise AssertionError(t)
 
 
+def _uniq(lines):
+    """the same lines, made pairwise different by trailing blanks (insignificant for the tokenizer)"""
+    out, seen = [], set()
+    for ln in lines:
+        while ln in seen:
+            ln += " "
+        seen.add(ln)
+        out.append(ln)
+    return out
+
+
 @st.composite
 def st_case(draw, maxdepth=3):
     nf = draw(st.integers(1, 3))
@@ -669,7 +688,9 @@ def st_case(draw, maxdepth=3):
         instances.append({"data": data, "seps": seps, "expect_error": bool(flags.get("error")),
                           "has_final": bool(flags.get("final")), "variant": draw(st.integers(0, 1)),
                           "poison": draw(st.none() | st.none() | st.integers(0, 4)),
-                          "lead_lex": draw(st.integers(0, 7))})
+                          "lead_lex": draw(st.integers(0, 7)),
+                          "form": draw(st.sampled_from(["str", "str", "str", "list", "tuple", "iter", "gen", "file",
+                                                        "dictkeys"]))})
     lead = draw(st.sampled_from([None, None, "WORD", "NUM"]))
     return {"fields": fields, "instances": instances, "lead": lead, "decoy": draw(st.booleans()), "wrap": draw(st.sampled_from([0, 0, 1, 2, 3])),
             "decl": draw(st.sampled_from([None, "bottomup", "shuffle"]).flatmap(
